@@ -40,7 +40,8 @@ EXPECTED_PROBES = {
     "quick": ["cut_frame_boundary", "cut_ubx_length", "cut_ubx_checksum", "cut_nmea_crlf", "cut_rtcm_crc", "cut_rtcm_hdr", "clean_wires", "dirty_wires", "validate_0", "big_frame_wires"],
     "thorough": ["cut_frame_boundary", "cut_ubx_length", "cut_ubx_checksum", "cut_nmea_crlf", "cut_rtcm_crc", "clean_wires", "dirty_wires", "validate_0", "sampled_long_wires"],
 }
-VARIANTS = ("file", "close", "timeout", "pipe", "bytesio")
+VARIANTS = ("file", "close", "timeout", "pipe", "bytesio", "oserror")
+OSERROR_ENDS = ("reset", "ebadf", "ehostunreach", "enotconn")
 
 
 def generate(seed: int, tier: str = "quick") -> dict:
@@ -64,7 +65,7 @@ def generate(seed: int, tier: str = "quick") -> dict:
         # one frame far larger than any plausible internal block (4 KiB) in front of / between the others
         from sim import device, wire as W  # pylint: disable=import-outside-toplevel
 
-        nbig = r_cfg.choice((4090, 4094, 4096, 4100, 8190, 9000, 12288))
+        nbig = r_cfg.choice((4090, 4094, 4096, 4100, 8190, 9000, 12288)) if r_cfg.random() < 0.5 else min(device.block_length(r_dev), 20000)
         if r_cfg.random() < 0.7:
             data = W.ubx_frame(r_cfg.choice((0x02, 0x0A, 0x66)), r_cfg.choice((0x13, 0x04, 0x77)), device.payload_bytes(r_dev, nbig, "random"))
             kind = "ubx"
@@ -115,7 +116,7 @@ def _transport(scn, variant, cut):
     if variant == "bytesio":
         return {"kind": "bytesio", "cut": cut}
     tr = dict(scn["socket"])
-    tr["end"] = variant
+    tr["end"] = variant if variant != "oserror" else OSERROR_ENDS[(cut or 0) % len(OSERROR_ENDS)]
     tr["cut"] = cut
     return tr
 
